@@ -27,7 +27,10 @@ factory object being stored (`.wrap "factory" _`); see `C14_never_the_factory`.
 `__post_init__` (`E.hook`) receives the stored attributes as a list; on the constructor path it is in
 field order, on the mapping path in data order followed by the defaults.  Python hooks read attributes
 by name, so `C14_ctor_eq_fromData_partial` assumes the hook only depends on the by-name lookup
-(`HookByName`).
+(`HookByName`).  It also receives the record of set fields (`__pane_set__`, in field order:
+`canonSet info set`), and on every construction path that record is already the one the finished instance
+carries (`C14_hook_sees_record_*`); the two passes over mapping data make the same call
+(`C14_hook_same_call_both_passes`).
 -/
 namespace PaneModel
 
@@ -85,7 +88,7 @@ theorem C14_ctor_is_conversion (info : PaneInfo) (conv : Nat → Val → Result)
         (bound.find? (·.1 == (initFields info)[i].1.name) = none →
           fieldDefault E (Facts.initDefaultCalled == some true) (initFields info)[i].1 = some trips[i].2.1 ∧
           trips[i].2.2 = false)) ∧
-      runHook E info (tripVals trips) = .ok final ∧ o = mkObj info final (tripSet trips) := by
+      runHook E info (tripVals trips) (tripSet trips) = .ok final ∧ o = mkObj info final (tripSet trips) := by
   obtain ⟨bound, trips, final, hb, hm, hh, rfl⟩ := (constructM_value_iff E info conv true args kwargs o).1 h
   obtain ⟨hl, hall⟩ := mapE_ok_iff.1 hm
   refine ⟨bound, trips, final, hb, hl, ?_, hh, rfl⟩
@@ -229,19 +232,21 @@ theorem C14_defaults (hF : Facts.structDefaultCalled = some true ∧ Facts.initD
     -- mapping data
     (∀ (fs : List (Val → Outcome Val)) (v o : Val), fs.length = info.fields.length → NoLeak fs →
       paneTryStruct E info fs v = .ok o →
-      ∃ all final, runHook E info all = .ok final ∧ o = mkObj info final ((structSpec info fs v.mapItems).map (·.1)) ∧
+      ∃ all final, runHook E info all ((structSpec info fs v.mapItems).map (·.1)) = .ok final ∧
+        o = mkObj info final ((structSpec info fs v.mapItems).map (·.1)) ∧
         (∀ n, assocHas n (structSpec info fs v.mapItems) = true →
           all.find? (·.1 == n) = (structSpec info fs v.mapItems).find? (·.1 == n)) ∧
         ∀ f ∈ info.fields, f.init = true → v.mapItems.any (fun p => namesField info p.1 f.name) = false →
           ∃ d, fieldDefault E true f = some d ∧ all.find? (·.1 == f.name) = some (f.name, d)) ∧
     -- sequence data / make_unchecked(*vals)
     (∀ (vals : List Val) (o : Val), makeUncheckedPos E info vals = .ok o →
-      ∃ all final, runHook E info all = .ok final ∧ o = mkObj info final ((posNames info).take vals.length) ∧
+      ∃ all final, runHook E info all ((posNames info).take vals.length) = .ok final ∧
+        o = mkObj info final ((posNames info).take vals.length) ∧
         ∀ f ∈ info.fields, f.init = true → f.name ∉ (posNames info).take vals.length →
           ∃ d, fieldDefault E true f = some d ∧ all.find? (·.1 == f.name) = some (f.name, d)) ∧
     -- make_unchecked(**vals)
     (∀ (vals : List (String × Val)) (o : Val), makeUncheckedKw E info vals = .ok o →
-      ∃ all final, runHook E info all = .ok final ∧ o = mkObj info final (vals.map (·.1)) ∧
+      ∃ all final, runHook E info all (vals.map (·.1)) = .ok final ∧ o = mkObj info final (vals.map (·.1)) ∧
         (∀ n, assocHas n vals = true → all.find? (·.1 == n) = vals.find? (·.1 == n)) ∧
         ∀ f ∈ info.fields, f.init = true → assocHas f.name vals = false →
           ∃ d, fieldDefault E true f = some d ∧ all.find? (·.1 == f.name) = some (f.name, d)) := by
@@ -291,7 +296,7 @@ theorem C14_unchecked_verbatim (info : PaneInfo) (conv conv' : Nat → Val → R
           (bound.find? (·.1 == (initFields info)[i].1.name) = none →
             fieldDefault E (Facts.initDefaultCalled == some true) (initFields info)[i].1 = some trips[i].2.1 ∧
             trips[i].2.2 = false)) ∧
-        runHook E info (tripVals trips) = .ok final ∧ o = mkObj info final (tripSet trips) := by
+        runHook E info (tripVals trips) (tripSet trips) = .ok final ∧ o = mkObj info final (tripSet trips) := by
   constructor
   · rw [constructM_eq, constructM_eq]
     have : ∀ bound, initVal E (Facts.initDefaultCalled == some true) conv false bound =
@@ -318,7 +323,7 @@ theorem C14_unchecked_verbatim (info : PaneInfo) (conv conv' : Nat → Val → R
 no creation path returns an instance: not the constructor (checked or unchecked), `from_dict_unchecked`,
 `copy`, `__replace__`, the two data layouts, nor the two `make_unchecked` forms. -/
 theorem C14_hook_always (info : PaneInfo) (hk : String) (hh : info.hook = some hk)
-    (hr : ∀ vals, ∃ e, E.hook hk vals = .error e) :
+    (hr : ∀ vals set, ∃ e, E.hook hk vals set = .error e) :
     (∀ conv checked args kwargs o, constructM E info conv checked args kwargs ≠ .value o) ∧
     (∀ d set o, fromDictUnchecked E info d set ≠ .value o) ∧
     (∀ x o, copyM E info x ≠ .value o) ∧
@@ -327,23 +332,23 @@ theorem C14_hook_always (info : PaneInfo) (hk : String) (hh : info.hook = some h
     (∀ fs v o, paneTryTuple E info fs v ≠ .ok o) ∧
     (∀ vals o, makeUncheckedKw E info vals ≠ .ok o) ∧
     (∀ vals o, makeUncheckedPos E info vals ≠ .ok o) := by
-  have hrun : ∀ vals final, runHook E info vals ≠ .ok final := by
-    intro vals final h
-    obtain ⟨e, he⟩ := runHook_raises hh hr vals
+  have hrun : ∀ vals set final, runHook E info vals set ≠ .ok final := by
+    intro vals set final h
+    obtain ⟨e, he⟩ := runHook_raises hh hr vals set
     rw [he] at h; cases h
   have hctor : ∀ conv checked args kwargs o, constructM E info conv checked args kwargs ≠ .value o := by
     intro conv checked args kwargs o h
     obtain ⟨_, trips, final, -, -, h3, -⟩ := (constructM_value_iff E info conv checked args kwargs o).1 h
-    exact hrun _ _ h3
+    exact hrun _ _ _ h3
   have hfd : ∀ d set o, fromDictUnchecked E info d set ≠ .value o := by
     intro d set o h
     unfold fromDictUnchecked at h
-    obtain ⟨e, he⟩ := runHook_raises hh hr d
+    obtain ⟨e, he⟩ := runHook_raises hh hr d (set.getD (d.map (·.1)))
     rw [he] at h; cases h
   have hpos : ∀ vals o, makeUncheckedPos E info vals ≠ .ok o := by
     intro vals o h
     obtain ⟨all, final, -, h2, -⟩ := (makeUncheckedPos_ok_iff E info vals o).1 h
-    exact hrun _ _ h2
+    exact hrun _ _ _ h2
   refine ⟨hctor, hfd, ?_, ?_, ?_, ?_, ?_, hpos⟩
   · intro x o h
     unfold copyM at h
@@ -360,10 +365,12 @@ theorem C14_hook_always (info : PaneInfo) (hk : String) (hh : info.hook = some h
   · intro fs v o h
     unfold paneTryStruct at h
     split at h
-    · split at h
+    · rename_i vals _
+      split at h
       · cases h
       · rename_i all _
-        obtain ⟨e, he⟩ := runHook_raises hh hr all
+        obtain ⟨e, he⟩ := runHook_raises hh hr all (vals.map (·.1))
+        simp only [] at h
         rw [he] at h
         split at h
         · rename_i heq
@@ -379,7 +386,7 @@ theorem C14_hook_always (info : PaneInfo) (hk : String) (hh : info.hook = some h
     exact hpos _ _ hm
   · intro vals o h
     obtain ⟨all, final, -, h2, -⟩ := (makeUncheckedKw_ok_iff E info vals o).1 h
-    exact hrun _ _ h2
+    exact hrun _ _ _ h2
 
 /-- … and the failure surfaces as `ParseInterrupt` (hence `ConvertError`, C03) on the two data paths —
 the guards around the hook catch every exception class — and propagates as the exception itself from
@@ -387,13 +394,13 @@ the constructor. -/
 theorem C14_hook_failure (hT : Facts.catches .paneStructHookTry = some .all ∧
       Facts.catches .paneTupleHookTry = some .all)
     (info : PaneInfo) (hk : String) (hh : info.hook = some hk)
-    (hr : ∀ vals, ∃ e, E.hook hk vals = .error e) :
+    (hr : ∀ vals set, ∃ e, E.hook hk vals set = .error e) :
     (∀ fs v, fs.length = info.fields.length → NoLeak fs → paneTryStruct E info fs v = .interrupt) ∧
     (∀ fs v, fs.length = info.fields.length → NoLeak fs → paneTryTuple E info fs v = .interrupt) ∧
     (∀ conv checked args kwargs bound trips,
       bindSig info args kwargs = .ok bound →
       mapE (initVal E (Facts.initDefaultCalled == some true) conv checked bound) (initFields info) = .ok trips →
-      ∃ e, E.hook hk (tripVals trips) = .error e ∧
+      ∃ e, E.hook hk (tripVals trips) (canonSet info (tripSet trips)) = .error e ∧
         constructM E info conv checked args kwargs = .raises e) := by
   have hall := C14_hook_always (E := E) info hk hh hr
   refine ⟨?_, ?_, ?_⟩
@@ -407,7 +414,7 @@ theorem C14_hook_failure (hT : Facts.catches .paneStructHookTry = some .all ∧
       | none => rfl
       | some all =>
         simp only
-        obtain ⟨e, he⟩ := runHook_raises hh hr all
+        obtain ⟨e, he⟩ := runHook_raises hh hr all ((structSpec info fs v.mapItems).map (·.1))
         rw [he, guardTry_all_error hT.1]
   · intro fs v hlen hnl
     cases h : paneTryTuple E info fs v with
@@ -415,13 +422,225 @@ theorem C14_hook_failure (hT : Facts.catches .paneStructHookTry = some .all ∧
     | interrupt => rfl
     | leak e => exact absurd h (paneTryTuple_noLeak E info fs v hlen hnl hT.2 e)
   · intro conv checked args kwargs bound trips hb hm
-    obtain ⟨e, he⟩ := hr (tripVals trips)
+    obtain ⟨e, he⟩ := hr (tripVals trips) (canonSet info (tripSet trips))
     refine ⟨e, he, ?_⟩
     rw [constructM_eq, hb]
     simp only [hm]
     unfold runHook
     rw [hh]
     simp only [he]
+
+/-! ## `__post_init__` sees the record of set fields
+
+The hook is handed the record `__pane_set__` (third argument of `E.hook`).  On every construction path
+the record it sees is the record `st` of the finished instance `.obj n fs st`. -/
+
+/-- **C14 (the hook sees the record, constructor).**  If `Cls(*args, **kw)` / `make_unchecked(*args, **kw)`
+returns the instance `.obj n fs st` and the class has a `__post_init__` `h`, then the arguments bound
+(`bound`), `__init__` stored `vals` and accumulated the record `set`, and the hook was called exactly as
+`E.hook h vals st`: with the record `st` of the finished instance, which is the canonical (field-order)
+set of the bound argument names. -/
+theorem C14_hook_sees_record_ctor (info : PaneInfo) (conv : Nat → Val → Result) (checked : Bool)
+    (args : List Val) (kwargs : List (String × Val)) (n : String) (fs : List (String × Val))
+    (st : List String) (h : String) (hh : info.hook = some h)
+    (hc : constructM E info conv checked args kwargs = .value (.obj n fs st)) :
+    ∃ bound vals set out, bindSig info args kwargs = .ok bound ∧
+      initLoop E (Facts.initDefaultCalled == some true) conv checked info.fields.zipIdx bound [] [] =
+        .ok (vals, set) ∧
+      st = canonSet info set ∧ st = canonSet info (bound.map (·.1)) ∧
+      E.hook h vals st = .ok out ∧ Val.obj n fs st = mkObj info out set := by
+  obtain ⟨bound, trips, final, hb, hm, hr, ho⟩ :=
+    (constructM_value_iff E info conv checked args kwargs _).1 hc
+  have hst : st = canonSet info (tripSet trips) := by
+    unfold mkObj at ho
+    injection ho
+  unfold runHook at hr
+  rw [hh] at hr
+  simp only at hr
+  rw [← hst] at hr
+  have hl : initLoop E (Facts.initDefaultCalled == some true) conv checked info.fields.zipIdx bound [] [] =
+      .ok (tripVals trips, tripSet trips) := by
+    have hm' : mapE (initVal E (Facts.initDefaultCalled == some true) conv checked bound)
+        (info.fields.zipIdx.filter (·.1.init)) = .ok trips := hm
+    rw [initLoop_eq, hm']
+    rfl
+  exact ⟨bound, tripVals trips, tripSet trips, final, hb, hl, hst, hst.trans (canonSet_tripSet hb hm), hr, ho⟩
+
+/-- **C14 (the hook sees the record, mapping data, fast pass).**  If `paneTryStruct` returns `.obj n fs' st`
+then the loop converted `vals` (one entry per field named by a data key), the defaults were filled
+(`all`), and the hook was called as `E.hook h all st` — with the record `st` of the finished instance,
+the canonical set of the names in `vals`, NOT the names of `all`. -/
+theorem C14_hook_sees_record_struct (info : PaneInfo) (fs : List (Val → Outcome Val)) (v : Val)
+    (n : String) (fs' : List (String × Val)) (st : List String) (h : String) (hh : info.hook = some h)
+    (hc : paneTryStruct E info fs v = .ok (.obj n fs' st)) :
+    ∃ vals all out, structLoop info fs v.mapItems [] = .ok vals ∧
+      fillDefaults E (Facts.structDefaultCalled == some true) info.fields vals = some all ∧
+      st = canonSet info (vals.map (·.1)) ∧
+      E.hook h all st = .ok out ∧ Val.obj n fs' st = mkObj info out (vals.map (·.1)) := by
+  unfold paneTryStruct at hc
+  cases hl : structLoop info fs v.mapItems [] with
+  | interrupt => rw [hl] at hc; cases hc
+  | leak e => rw [hl] at hc; cases hc
+  | ok vals =>
+    rw [hl] at hc
+    simp only at hc
+    cases hf : fillDefaults E (Facts.structDefaultCalled == some true) info.fields vals with
+    | none => rw [hf] at hc; cases hc
+    | some all =>
+      rw [hf] at hc
+      simp only at hc
+      cases hg : guardTry (Facts.catches .paneStructHookTry) (runHook E info all (vals.map (·.1))) with
+      | interrupt => rw [hg] at hc; cases hc
+      | leak e => rw [hg] at hc; cases hc
+      | ok final =>
+        rw [hg] at hc
+        simp only [Outcome.ok.injEq] at hc
+        have hr := guardTry_eq_ok.1 hg
+        have hst : st = canonSet info (vals.map (·.1)) := by
+          unfold mkObj at hc
+          injection hc.symm
+        unfold runHook at hr
+        rw [hh] at hr
+        simp only at hr
+        rw [← hst] at hr
+        exact ⟨vals, all, final, rfl, hf, hst, hr, hc.symm⟩
+
+/-- … and that record is the fields named by the data's keys, in field order -/
+theorem C14_hook_sees_record_struct_keys (info : PaneInfo) (fs : List (Val → Outcome Val)) (v : Val)
+    (hlen : fs.length = info.fields.length) (hnl : NoLeak fs)
+    (n : String) (fs' : List (String × Val)) (st : List String) (h : String) (hh : info.hook = some h)
+    (hc : paneTryStruct E info fs v = .ok (.obj n fs' st)) :
+    st = (info.fields.filter fun f => v.mapItems.any (fun p => namesField info p.1 f.name)).map (·.name) ∧
+    ∃ all out, E.hook h all st = .ok out := by
+  obtain ⟨vals, all, out, hl, -, hst, hr, -⟩ := C14_hook_sees_record_struct info fs v n fs' st h hh hc
+  refine ⟨?_, all, out, hr⟩
+  rw [hst]
+  unfold canonSet
+  congr 1
+  apply List.filter_congr
+  intro f _
+  rw [contains_map_fst]
+  rcases structLoop_verdict info fs hlen hnl v.mapItems with ⟨h1, -⟩ | ⟨h1, -, h3⟩
+  · rw [h1] at hl; cases hl
+  · rw [h1] at hl; cases hl
+    exact h3 f.name
+
+/-- **C14 (the hook sees the record, `make_unchecked(*vals)`).**  The hook is called on the filled
+attributes with the record of the finished instance: the first `vals.length` positional fields. -/
+theorem C14_hook_sees_record_makeUncheckedPos (info : PaneInfo) (vals : List Val)
+    (n : String) (fs' : List (String × Val)) (st : List String) (h : String) (hh : info.hook = some h)
+    (hc : makeUncheckedPos E info vals = .ok (.obj n fs' st)) :
+    ∃ all out,
+      fillDefaults E true info.fields (((posFields info).zip vals).map fun ((f, _), x) => (f.name, x)) = some all ∧
+      st = canonSet info ((posNames info).take vals.length) ∧
+      E.hook h all st = .ok out ∧ Val.obj n fs' st = mkObj info out ((posNames info).take vals.length) := by
+  obtain ⟨all, final, hf, hr, ho⟩ := (makeUncheckedPos_ok_iff E info vals _).1 hc
+  have hst : st = canonSet info ((posNames info).take vals.length) := by
+    unfold mkObj at ho
+    injection ho
+  unfold runHook at hr
+  rw [hh] at hr
+  simp only at hr
+  rw [← hst] at hr
+  exact ⟨all, final, hf, hst, hr, ho⟩
+
+/-- **C14 (the hook sees the record, sequence data).**  Both passes over sequence data build the instance
+with `make_unchecked(*vals)`; on the fast pass the hook is called with the record of the finished
+instance: the positional fields that got an element. -/
+theorem C14_hook_sees_record_tuple (info : PaneInfo) (fs : List (Val → Outcome Val)) (v : Val)
+    (n : String) (fs' : List (String × Val)) (st : List String) (h : String) (hh : info.hook = some h)
+    (hc : paneTryTuple E info fs v = .ok (.obj n fs' st)) :
+    ∃ vals all out, makeUncheckedPos E info vals = .ok (.obj n fs' st) ∧
+      st = canonSet info ((posNames info).take v.seqItems.length) ∧
+      E.hook h all st = .ok out := by
+  obtain ⟨-, vals, hl, -, hm⟩ := (paneTryTuple_ok_iff E info fs v _).1 hc
+  obtain ⟨all, out, -, hst, hr, -⟩ := C14_hook_sees_record_makeUncheckedPos info vals n fs' st h hh hm
+  refine ⟨vals, all, out, hm, ?_, hr⟩
+  rw [hst]
+  congr 1
+  rw [hl, ← posNames_length, List.take_eq_take_iff]
+  omega
+
+/-- **C14 (the hook sees the record, `from_dict_unchecked`).**  The hook is called on `d` with the record
+of the finished instance: `set_fields` if given, else the keys of `d` (in field order). -/
+theorem C14_hook_sees_record_fromDict (info : PaneInfo) (d : List (String × Val)) (set : Option (List String))
+    (n : String) (fs : List (String × Val)) (st : List String) (h : String) (hh : info.hook = some h)
+    (hc : fromDictUnchecked E info d set = .value (.obj n fs st)) :
+    ∃ out, st = canonSet info (set.getD (d.map (·.1))) ∧
+      E.hook h d st = .ok out ∧ Val.obj n fs st = mkObj info out (set.getD (d.map (·.1))) := by
+  unfold fromDictUnchecked at hc
+  cases hr : runHook E info d (set.getD (d.map (·.1))) with
+  | error e => rw [hr] at hc; cases hc
+  | ok final =>
+    rw [hr] at hc
+    simp only [Result.value.injEq] at hc
+    have hst : st = canonSet info (set.getD (d.map (·.1))) := by
+      unfold mkObj at hc
+      injection hc.symm
+    unfold runHook at hr
+    rw [hh] at hr
+    simp only at hr
+    rw [← hst] at hr
+    exact ⟨final, hst, hr, hc.symm⟩
+
+/-- **C14 (the two passes over mapping data make the same hook call).**  When the fast pass reaches the
+hook — the loop converted `vals`, the defaults were filled: `all` — then
+* `make_unchecked(**vals)` of the diagnostic pass fills the SAME attributes (`all' = all`: both sites call
+  default factories, the `structDefaultCalled` / `initDefaultCalled` conjuncts of `GuardsCover`);
+* both passes call the hook with the same two arguments `(all, canonSet info (vals.map (·.1)))`: the
+  fast pass is the guard around that call, `make_unchecked(**vals)` is that call, and the diagnostic pass
+  is its guard around `make_unchecked(**vals)` (its loop returns the same `vals`, no child error, nothing
+  missing, nothing extra). -/
+theorem C14_hook_same_call_both_passes (hG : GuardsCover = true) (info : PaneInfo)
+    {ts : List (Val → Outcome Val)} {cs : List (Val → Outcome (Option Err))} (hg : GoodFs ts cs)
+    (hlen : ts.length = info.fields.length) (hnd : nodupNames (info.fields.map (·.name)) = true)
+    (v : Val) (vals all : List (String × Val)) (h : String) (hh : info.hook = some h)
+    (hl : structLoop info ts v.mapItems [] = .ok vals)
+    (hf : fillDefaults E (Facts.structDefaultCalled == some true) info.fields vals = some all) :
+    fillDefaults E (Facts.initDefaultCalled == some true) info.fields vals = some all ∧
+    paneTryStruct E info ts v =
+      (match guardTry (Facts.catches .paneStructHookTry) (E.hook h all (canonSet info (vals.map (·.1)))) with
+       | .ok final => .ok (mkObj info final (vals.map (·.1)))
+       | .interrupt => .interrupt
+       | .leak e => .leak e) ∧
+    makeUncheckedKw E info vals =
+      (match E.hook h all (canonSet info (vals.map (·.1))) with
+       | .ok final => .ok (mkObj info final (vals.map (·.1)))
+       | .error e => .error e) ∧
+    paneColStruct E info ts cs v =
+      (match guardCol (Facts.catches .paneStructHookCollect) (makeUncheckedKw E info vals) with
+       | .ok none => .ok none
+       | .ok (some e) => .ok (some (.wrongType ("struct " ++ info.name) v (causeOf e) none))
+       | .interrupt => .interrupt
+       | .leak e => .leak e) := by
+  have hcalled : (Facts.structDefaultCalled == some true) = (Facts.initDefaultCalled == some true) := by
+    simp only [GuardsCover, Bool.and_eq_true] at hG
+    rw [hG.1.1.2, hG.1.2]
+  have hf' : fillDefaults E (Facts.initDefaultCalled == some true) info.fields vals = some all := by
+    rw [← hcalled]; exact hf
+  refine ⟨hf', ?_, ?_, ?_⟩
+  · unfold paneTryStruct
+    rw [hl]
+    simp only [hf, runHook, hh]
+    rfl
+  · unfold makeUncheckedKw
+    rw [hf']
+    simp only [runHook, hh]
+    rfl
+  · obtain ⟨vals', ch, extra, seen', hc, hrest⟩ :=
+      structLoop_paneCol info hg hlen v.mapItems [] [] (fun n => by simp [assocHas])
+    rcases hrest with ⟨h3, h4, h5, h6⟩ | ⟨h3, -⟩
+    · simp only [List.nil_append] at h3 h6
+      rw [hl] at h3
+      cases h3
+      have hmiss := missing_isEmpty info.fields seen' vals h6
+      have hfill := fillDefaults_isSome E (Facts.structDefaultCalled == some true) info.fields vals hnd
+      rw [← hmiss, hf] at hfill
+      unfold paneColStruct
+      simp only [hc, ← hfill, h4, h5, Option.isSome_some, Bool.not_true, Bool.or_false,
+        Bool.false_eq_true, if_false]
+      rfl
+    · rw [hl] at h3; cases h3
 
 /-! ## Constructor and `from_data` agree -/
 
@@ -532,12 +751,12 @@ example : tryC extRaising (.pane c14H c14Cs) (.dict [(.str "a", .int 1)]) = .int
   with_unfolding_all rfl
 example : tryC extRaising (.pane c14H c14Cs) (.list [.int 1]) = .interrupt := by
   with_unfolding_all rfl
-example := C14_hook_always (E := extRaising) c14H "post" rfl (fun _ => ⟨_, rfl⟩)
+example := C14_hook_always (E := extRaising) c14H "post" rfl (fun _ _ => ⟨_, rfl⟩)
 example := C14_set_record (E := c14Ext) c14R (by decide)
 example := C14_defaults (E := c14Ext) C14_facts c14R (by decide)
 
 /-- an `Ext` whose hook is constant satisfies `HookByName`; `ExtOk` as for `extRaising` -/
-theorem c14Ext_hookByName : HookByName c14Ext := fun _ _ _ _ => rfl
+theorem c14Ext_hookByName : HookByName c14Ext := fun _ _ _ _ _ => rfl
 theorem c14Ext_ok : ExtOk c14Ext where
   fromiso_valueError := extRaising_ok.fromiso_valueError
   numpy_total := extRaising_ok.numpy_total
@@ -551,6 +770,123 @@ example := (C14_ctor_eq_fromData_partial C03_guards c14Ext_ok C14_facts C15_gate
   [("k", .int 2), ("a", .bool true)] (by decide) (by decide) (by decide) (by decide) (by decide)
   c14Ext_hookByName (.obj "R" [("a", .int 1), ("b", .list []), ("k", .int 2)] ["a", "k"])).1
   (by with_unfolding_all rfl)
+
+/-! ### A hook that reads the record of set fields
+
+`class OneOf: a: int = 0; b: int = 0` whose `__post_init__` demands that exactly one field was supplied
+(`len(self.__pane_set__) == 1`). -/
+
+/-- `extRaising` with a hook `"one_of"` that really reads the record: it fails unless exactly one field
+is set -/
+def c14SetExt : Ext :=
+  { extRaising with
+    hook := fun h vals set =>
+      if h == "one_of" then
+        if set.length = 1 then .ok vals
+        else .error { cls := .valueError, msg := "ValueError: exactly one of a, b" }
+      else .ok vals }
+
+def c14OneOf : PaneInfo where
+  name := "OneOf"
+  fields := [{ name := "a", inNames := ["a"], outName := "a", default := .value (.int 0) },
+             { name := "b", inNames := ["b"], outName := "b", default := .value (.int 0) }]
+  inFormat := ["struct", "tuple"]
+  outFormat := "struct"
+  minPos := 0
+  maxPos := 2
+  hook := some "one_of"
+
+def c14OneOfCs : List Conv := [exInt, exInt]
+
+/-- `{a: 1}`: one field set — the fast pass accepts (the hook saw `["a"]`, not `["a", "b"]`) -/
+theorem c14_oneOf_try_accepts :
+    paneTryStruct c14SetExt c14OneOf (tryCs c14SetExt c14OneOfCs) (.dict [(.str "a", .int 1)]) =
+      .ok (.obj "OneOf" [("a", .int 1), ("b", .int 0)] ["a"]) := by
+  with_unfolding_all rfl
+
+/-- `{a: 1, b: 2}`: two fields set — the hook refuses, the fast pass interrupts -/
+theorem c14_oneOf_try_rejects :
+    paneTryStruct c14SetExt c14OneOf (tryCs c14SetExt c14OneOfCs)
+      (.dict [(.str "a", .int 1), (.str "b", .int 2)]) = .interrupt := by
+  with_unfolding_all rfl
+
+/-- `{a: 1}`: the diagnostic pass finds nothing — the two passes agree -/
+theorem c14_oneOf_col_agrees :
+    paneColStruct c14SetExt c14OneOf (tryCs c14SetExt c14OneOfCs) (colCs c14SetExt c14OneOfCs)
+      (.dict [(.str "a", .int 1)]) = .ok none := by
+  with_unfolding_all rfl
+
+/-- … and on `{a: 1, b: 2}` it reports the hook's failure -/
+example : ∃ t, paneColStruct c14SetExt c14OneOf (tryCs c14SetExt c14OneOfCs) (colCs c14SetExt c14OneOfCs)
+    (.dict [(.str "a", .int 1), (.str "b", .int 2)]) = .ok (some t) := ⟨_, by with_unfolding_all rfl⟩
+
+/-- the same through the converter, the constructor, sequence data and `from_dict_unchecked` -/
+example : tryC c14SetExt (.pane c14OneOf c14OneOfCs) (.dict [(.str "b", .int 5)]) =
+    .ok (.obj "OneOf" [("a", .int 0), ("b", .int 5)] ["b"]) := by with_unfolding_all rfl
+example : colC c14SetExt (.pane c14OneOf c14OneOfCs) (.dict [(.str "b", .int 5)]) = .ok none := by
+  with_unfolding_all rfl
+example : tryC c14SetExt (.pane c14OneOf c14OneOfCs) (.list [.int 1]) =
+    .ok (.obj "OneOf" [("a", .int 1), ("b", .int 0)] ["a"]) := by with_unfolding_all rfl
+example : tryC c14SetExt (.pane c14OneOf c14OneOfCs) (.list [.int 1, .int 2]) = .interrupt := by
+  with_unfolding_all rfl
+example : tryC c14SetExt (.pane c14OneOf c14OneOfCs) (.dict []) = .interrupt := by with_unfolding_all rfl
+example : constructM c14SetExt c14OneOf (convOf c14SetExt c14OneOfCs) true [] [("b", .int 2)] =
+    .value (.obj "OneOf" [("a", .int 0), ("b", .int 2)] ["b"]) := by with_unfolding_all rfl
+example : constructM c14SetExt c14OneOf (convOf c14SetExt c14OneOfCs) true [.int 1] [("b", .int 2)] =
+    .raises { cls := .valueError, msg := "ValueError: exactly one of a, b" } := by with_unfolding_all rfl
+example : fromDictUnchecked c14SetExt c14OneOf [("a", .int 1), ("b", .int 0)] (some ["a"]) =
+    .value (.obj "OneOf" [("a", .int 1), ("b", .int 0)] ["a"]) := by with_unfolding_all rfl
+example : fromDictUnchecked c14SetExt c14OneOf [("a", .int 1), ("b", .int 0)] none =
+    .raises { cls := .valueError, msg := "ValueError: exactly one of a, b" } := by with_unfolding_all rfl
+example := C14_hook_sees_record_struct (E := c14SetExt) c14OneOf (tryCs c14SetExt c14OneOfCs)
+  (.dict [(.str "a", .int 1)]) "OneOf" [("a", .int 1), ("b", .int 0)] ["a"] "one_of" rfl c14_oneOf_try_accepts
+
+theorem c14SetExt_ok : ExtOk c14SetExt where
+  fromiso_valueError := extRaising_ok.fromiso_valueError
+  numpy_total := extRaising_ok.numpy_total
+  custom_good := extRaising_ok.custom_good
+  dt_total := ⟨extRaising_ok.dt_total.1, extRaising_ok.dt_total.2, extRaising_ok.dt_total.3⟩
+
+/-- the hypotheses of `C14_hook_same_call_both_passes` are satisfiable on `{a: 1}` -/
+example := C14_hook_same_call_both_passes (E := c14SetExt) C03_guards c14OneOf
+  (C03.goods C03_guards c14SetExt_ok c14OneOfCs (by decide)) (by rfl) (by decide)
+  (.dict [(.str "a", .int 1)]) [("a", .int 1)] [("a", .int 1), ("b", .int 0)] "one_of" rfl
+  (by with_unfolding_all rfl) (by with_unfolding_all rfl)
+
+/-- The fast pass over mapping data AS IT WAS before the fix: `from_dict_unchecked(values incl. defaults)`
+ran the hook while the record still named EVERY field (`all.map (·.1)`, defaults included) and corrected
+the record only afterwards. -/
+def paneTryStructOld (E : Ext) (info : PaneInfo) (fs : List (Val → Outcome Val)) (v : Val) : Outcome Val :=
+  match structLoop info fs v.mapItems [] with
+  | .ok vals =>
+    let set := vals.map (·.1)
+    match fillDefaults E (Facts.structDefaultCalled == some true) info.fields vals with
+    | none => .interrupt
+    | some all =>
+      match guardTry (Facts.catches .paneStructHookTry) (runHook E info all (all.map (·.1))) with
+      | .ok final => .ok (mkObj info final set)
+      | .interrupt => .interrupt
+      | .leak e => .leak e
+  | .interrupt => .interrupt
+  | .leak e => .leak e
+
+/-- **C14 (regression: the defect the fix removed).**  With the hook that reads the record, the OLD fast
+pass showed it both fields on `{a: 1}` and interrupted, while the diagnostic pass (which always built the
+instance with `make_unchecked(**supplied)`) found nothing: the two passes disagreed on valid data.  The
+current `paneTryStruct` accepts (`c14_oneOf_try_accepts`). -/
+theorem C14_old_record_disagrees :
+    paneTryStructOld c14SetExt c14OneOf (tryCs c14SetExt c14OneOfCs) (.dict [(.str "a", .int 1)]) =
+      .interrupt ∧
+    paneColStruct c14SetExt c14OneOf (tryCs c14SetExt c14OneOfCs) (colCs c14SetExt c14OneOfCs)
+      (.dict [(.str "a", .int 1)]) = .ok none ∧
+    paneTryStruct c14SetExt c14OneOf (tryCs c14SetExt c14OneOfCs) (.dict [(.str "a", .int 1)]) =
+      .ok (.obj "OneOf" [("a", .int 1), ("b", .int 0)] ["a"]) :=
+  ⟨by with_unfolding_all rfl, c14_oneOf_col_agrees, c14_oneOf_try_accepts⟩
+
+/-- without a hook that reads the record the old and the new fast pass coincide (the record of the
+finished instance was always right) -/
+example : paneTryStructOld c14Ext c14R (tryCs c14Ext c14Cs) (.dict [(.str "a", .int 1)]) =
+    paneTryStruct c14Ext c14R (tryCs c14Ext c14Cs) (.dict [(.str "a", .int 1)]) := by with_unfolding_all rfl
 
 /-! ## Axioms -/
 
@@ -569,6 +905,17 @@ example := (C14_ctor_eq_fromData_partial C03_guards c14Ext_ok C14_facts C15_gate
 #print axioms C14_hook_always
 #print axioms C14_hook_failure
 #print axioms C14_ctor_eq_fromData_partial
+#print axioms C14_hook_sees_record_ctor
+#print axioms C14_hook_sees_record_struct
+#print axioms C14_hook_sees_record_struct_keys
+#print axioms C14_hook_sees_record_makeUncheckedPos
+#print axioms C14_hook_sees_record_tuple
+#print axioms C14_hook_sees_record_fromDict
+#print axioms C14_hook_same_call_both_passes
+#print axioms c14_oneOf_try_accepts
+#print axioms c14_oneOf_try_rejects
+#print axioms c14_oneOf_col_agrees
+#print axioms C14_old_record_disagrees
 #print axioms C14_convOf
 #print axioms C14_alias_only_fromData
 #print axioms c14Ext_ok
